@@ -50,11 +50,12 @@ Twins == { << i, i >> : i \in CatIds }
 Variants == { << 3, 4 >>, << 4, 5 >>, << 3, 6 >>, << 22, 23 >>, << 22, 24 >>, << 16, 17 >>,
               << 26, 27 >>, << 41, 42 >>, << 41, 43 >>, << 50, 51 >>, << 59, 60 >>, << 28, 29 >>,
               << 5, 3 >>, << 23, 22 >>, << 42, 41 >>, << 1, 2 >>, << 48, 55 >>, << 33, 34 >>,
-              << 63, 67 >>, << 11, 71 >>, << 71, 11 >>, << 72, 73 >>, << 73, 72 >> }
+              << 63, 67 >>, << 11, 71 >>, << 71, 11 >>, << 72, 73 >>, << 73, 72 >>,
+              << 3, 76 >>, << 76, 3 >>, << 74, 75 >> }
 \* entries whose histories are enumerated deeper: a stock node with strings, a
 \* user dataclass node, a legacy node, a legacy subclass of a dataclass node,
 \* a node that does not cache its hash, a compiled expression
-Deep == {3, 22, 41, 48, 50, 46, 56, 68, 70}
+Deep == {3, 22, 41, 48, 50, 46, 56, 68, 70, 74}
 
 \* quick tier: histories one step deeper for one or two stock nodes per mechanism
 \* (all stock nodes share the generated pickling code) and for everything that
